@@ -227,9 +227,16 @@ package ast
 // ---- C08: printing of numbers is injective per kind ---------------------------------------------------------------
 // A float constant prints as text that reads back as the same float64, an integer as its decimal numeral (assumed
 // contracts of strconv): two different floats (two different integers) never print alike.
+// C09: the text of a finite float always carries a decimal point, so that it reads back as a float and not as an
+// integer (a float with an integral value prints as 1.0, not 1). ASSUMED about decimal notation: a text without a
+// point that FormatFloat produced for a finite value denotes the same value with ".0" appended, and the result then
+// contains a point.
+//@ axiom pointZero(s string): strings.hasSub(s + ".0", ".") && (!strings.hasSub(s, ".") ==> strconv.parseF64(s + ".0") == strconv.parseF64(s))
+//@   auto
 //@ func FormatFloat64(floatNum)
 //@   modifies nothing
 //@   ensures strconv.parseF64(result) == floatNum
+//@   ensures !math.isInf(floatNum, 0) && !math.isNaN(floatNum) ==> strings.hasSub(result, ".")
 
 // ASSUMED about fmt: "%d" of an int64 is its decimal numeral.
 //@ axiom sprintfDecimal(x int64): strconv.parseI64(sprintf("%d", x)) == x
